@@ -46,19 +46,19 @@ type BscGen struct {
 	hashLbl map[common.Hash]string
 	nLbl    int
 	// truth
-	epoch    uint64
-	cur      []int          // set in force for the next block (universe indices, ascending)
-	pend     []int          // announced, not yet in force
-	switchAt uint64         // blocks > switchAt are sealed by pend
-	signerOf map[uint64]int // block -> signer
-	tip      bsctypes.Header
+	epoch      uint64
+	cur        []int          // set in force for the next block (universe indices, ascending)
+	pend       []int          // announced, not yet in force
+	switchAt   uint64         // blocks > switchAt are sealed by pend
+	signerOf   map[uint64]int // block -> signer
+	tip        bsctypes.Header
 	prev       []int  // the set that was in force before the last switch
 	lastSwitch uint64 // block at which the set in force last changed
-	heights  []uint64
-	name     string
-	viaTx    bool // deliver updates as signed MsgUpdateClient transactions (determinism stream)
-	curLen   int  // length of the stored validator list (duplicates included): decides the switch block
-	pendLen  int
+	heights    []uint64
+	name       string
+	viaTx      bool // deliver updates as signed MsgUpdateClient transactions (determinism stream)
+	curLen     int  // length of the stored validator list (duplicates included): decides the switch block
+	pendLen    int
 }
 
 func (g *BscGen) initUniverse(n int) {
